@@ -309,11 +309,17 @@ class Check(PropertyCheck):
                 yield {"op": "bytes", "buf_hex": hx(b)}
 
     # ------------------------------------------------------------------ implementation
-    @staticmethod
-    def _unpack(buf):
+    _where = None      # (section, index) named by the last struct.error, e.g. ("answer", 0)
+
+    @classmethod
+    def _unpack(cls, buf):
+        cls._where = None
         try:
             return dns.DNSMessage.unpack(buf), None
-        except struct.error:
+        except struct.error as e:
+            import re as _re
+            m = _re.match(r"(question|answer|authority|additional) #(\d+):", str(e))
+            cls._where = (m.group(1), int(m.group(2))) if m else None
             return None, "err"
         except Exception as e:                      # anything but a parse error is a violation by itself
             return None, "exc:" + type(e).__name__
@@ -345,6 +351,7 @@ class Check(PropertyCheck):
                 if p is not None:
                     m2, e2 = self._unpack(p)
                     obs["back"] = e2 or "ok " + D.render_msg(m2)
+                    if e2 == "err" and self._where: obs["back_where"] = list(self._where)
         elif op == "name":
             try:
                 t, n = domain_names.unpack_from_with_compression(unhx(case["buf_hex"]), case["off"], domain_names.cache())
@@ -421,31 +428,50 @@ class Check(PropertyCheck):
             out.append([] if sec == "-" else [tuple(r.split(":")) for r in sec.split(";")])
         return hdr, qs, out
 
-    def _only_fallback_data_differs(self, a, b):
-        """the two renderings are the same message except for the data of records whose (first) data is in the
-        'fallback' class of its type — and at least one such record differs"""
+    def _only_fallback_data_differs(self, a, b, in_class):
+        """the two renderings are the same message except for the data of records for which in_class(index, type, data of a)
+        holds — and at least one such record differs"""
         ha, qa, sa = self._parse_rendered(a); hb, qb, sb = self._parse_rendered(b)
         if (ha, qa) != (hb, qb) or [len(x) for x in sa] != [len(x) for x in sb]: return False
-        differs = False
+        differs, i = False, 0
         for xa, xb in zip(sa, sb):
             for ra, rb in zip(xa, xb):
                 if ra[:4] != rb[:4]: return False
                 if ra[4] != rb[4]:
-                    if D.rdata_class(self.layout, int(ra[1]), unhx(ra[4])) != "fallback": return False
+                    if not in_class(i, int(ra[1]), unhx(ra[4])): return False
                     differs = True
+                i += 1
         return differs
 
     def known(self, case, obs, failure):
         """F-C25a: bytes case, failure 'reencode: decodes to ok ...', and first and second decode are the same message
                    except for the data of records in the fallback class (data not matching the layout of its type)
            F-C25b: msg case, failure 'roundtrip: decodes to ok ...', and constructed and decoded message are the same
-                   except for the data of records in the fallback class"""
+                   except for the data of records in the fallback class
+           F-C25c: bytes case, failure 'reencode: decodes to err', and the parse error of the second decode is located at a
+                   record whose data in the input did not match the layout of its type"""
         if not isinstance(obs, dict): return None
         if case["op"] == "bytes" and failure.startswith("reencode: decodes to ok ") and str(obs.get("r", "")).startswith("ok ") \
                 and str(obs.get("back", "")).startswith("ok "):
-            if self._only_fallback_data_differs(obs["r"][3:], obs["back"][3:]): return "F-C25a"
+            raw = D.locate_records(unhx(case["buf_hex"]))      # the records as they stand in the INPUT
+            if raw is not None:
+                in_class = lambda i, ty, _d: i < len(raw) and raw[i][0] == ty and D.layout_mismatch(self.layout, ty, raw[i][1])
+                if self._only_fallback_data_differs(obs["r"][3:], obs["back"][3:], in_class): return "F-C25a"
+        if case["op"] == "bytes" and failure == "reencode: decodes to err" and obs.get("back") == "err" and obs.get("back_where") \
+                and str(obs.get("r", "")).startswith("ok "):
+            # F-C25c: the second decode fails AT a record whose data in the input did not match the layout of its type
+            raw = D.locate_records(unhx(case["buf_hex"]))
+            _, _, secs = self._parse_rendered(obs["r"][3:])
+            sec, idx = obs["back_where"]
+            order = ["answer", "authority", "additional"]
+            if raw is not None and sec in order:
+                i = sum(len(secs[k]) for k in range(order.index(sec))) + idx
+                if i < len(raw) and idx < len(secs[order.index(sec)]) and int(secs[order.index(sec)][idx][1]) == raw[i][0] \
+                        and D.layout_mismatch(self.layout, raw[i][0], raw[i][1]):
+                    return "F-C25c"
         if case["op"] == "msg" and failure.startswith("roundtrip: decodes to ok ") and str(obs.get("back", "")).startswith("ok "):
-            if self._only_fallback_data_differs(obs["msg"], obs["back"][3:]): return "F-C25b"
+            in_class = lambda i, ty, d: D.rdata_class(self.layout, ty, d) == "fallback"
+            if self._only_fallback_data_differs(obs["msg"], obs["back"][3:], in_class): return "F-C25b"
         return None
 
     def known_selftest(self):
@@ -454,7 +480,9 @@ class Check(PropertyCheck):
         H = "1,0,0,0,0,1,1,0,0 61626364:33:1 "
         r1 = H + "61626364:33:1:60:046162636400c02b00 - -"          # SRV data shorter than its fixed fields, after heuristics
         r2 = H + "61626364:33:1:60:0461626364000000 - -"
-        wb = {"op": "bytes", "buf_hex": "00"}
+        wb = {"op": "bytes", "buf_hex": "00018180000100010000000004616263640000210001c00c002100010000003c0005c00cc02b00"}
+        wtxt = {"op": "bytes", "buf_hex": "00018180000100010000000004616263640000210001c00c001000010000003c000302c00c"}
+        wsrv = {"op": "bytes", "buf_hex": "00018180000100010000000004616263640000210001c00c002100010000003c000900010002000301c000"}
         wm = {"op": "msg"}
         T = [
             # F-C25a positive: the recorded witness
@@ -466,10 +494,20 @@ class Check(PropertyCheck):
             (wb, {"r": "ok " + r1, "packed": "00", "back": "ok " + r2.replace("61626364:33:1:60", "61626365:33:1:60")},
              "reencode: decodes to ok x", None),
             # neighbouring input: TXT (no layout) data changed; SRV data that matches its layout changed
-            (wb, {"r": "ok " + H + "61626364:16:1:60:02c00c - -", "packed": "00", "back": "ok " + H + "61626364:16:1:60:02c00d - -"},
+            (wtxt, {"r": "ok " + H + "61626364:16:1:60:02c00c - -", "packed": "00", "back": "ok " + H + "61626364:16:1:60:02c00d - -"},
              "reencode: decodes to ok x", None),
-            (wb, {"r": "ok " + H + "61626364:33:1:60:00010002000301c000 - -", "packed": "00",
+            (wsrv, {"r": "ok " + H + "61626364:33:1:60:00010002000301c000 - -", "packed": "00",
                   "back": "ok " + H + "61626364:33:1:60:00010002000301c100 - -"}, "reencode: decodes to ok x", None),
+            # F-C25c positive (witness c00c c02c 00) and near misses: error located at another record / in a question; same
+            # error on an input whose SRV data matches its layout
+            ({"op": "bytes", "buf_hex": wb["buf_hex"][:-6] + "c02c00"}, {"r": "ok " + r1, "packed": "00", "back": "err", "back_where": ["answer", 0]},
+             "reencode: decodes to err", "F-C25c"),
+            ({"op": "bytes", "buf_hex": wb["buf_hex"][:-6] + "c02c00"}, {"r": "ok " + r1, "packed": "00", "back": "err", "back_where": ["question", 0]},
+             "reencode: decodes to err", None),
+            ({"op": "bytes", "buf_hex": wb["buf_hex"][:-6] + "c02c00"}, {"r": "ok " + r1, "packed": "00", "back": "err", "back_where": ["additional", 0]},
+             "reencode: decodes to err", None),
+            (wsrv, {"r": "ok " + H + "61626364:33:1:60:00010002000301c000 - -", "packed": "00", "back": "err", "back_where": ["answer", 0]},
+             "reencode: decodes to err", None),
             # termination failure on a message of the class is not the finding
             (wb, {"__timeout__": 3}, "termination: DNSMessage.unpack did not return within 3s", None),
             # F-C25b positive: CNAME data 99 c0 0c constructed, decoded as 99 + expansion
@@ -491,6 +529,9 @@ class Check(PropertyCheck):
         assert D.rdata_class(L, 33, bytes.fromhex("c00cc02b00")) == "fallback" and D.rdata_class(L, 5, bytes.fromhex("99c00c")) == "fallback"
         assert D.rdata_class(L, 15, bytes.fromhex("000ac00c")) == "ptr" and D.rdata_class(L, 16, bytes.fromhex("02c00c")) == "opaque"
         assert D.rdata_class(L, 15, bytes.fromhex("c00c046d61696c00")) == "plain" and D.rdata_class(L, 5, bytes.fromhex("99c0")) == "plain"
+        assert D.layout_mismatch(L, 33, bytes.fromhex("c00cc02b00")) and not D.layout_mismatch(L, 33, bytes.fromhex("000100020003c00c"))
+        assert not D.layout_mismatch(L, 6, bytes.fromhex("026e73c00c04686f7374c00c") + bytes(20)) and D.layout_mismatch(L, 2, bytes.fromhex("40c00c"))
+        assert D.locate_records(unhx(wb["buf_hex"])) == [(33, bytes.fromhex("c00cc02b00"))]
 
     # ------------------------------------------------------------------ model tie
     def _obs_for(self, case):
